@@ -192,6 +192,10 @@ class Q:
     def __init__(self, v, d, e):
         if not math.isfinite(v) or not math.isfinite(e):
             raise Undefined('non-finite')
+        if abs(v) > 1e250 or (v != 0 and abs(v) < 1e-250):
+            # the library computes in its own base units (g, m, s) and prefixes: an intermediate value can sit up to some tens
+            # of orders of magnitude away from the SI value of this model and overflow / underflow there although it does not here
+            raise Undefined('magnitude within 58 orders of the floating-point range')
         self.v, self.d, self.e = v, d, e
 
 
